@@ -10,6 +10,7 @@ pub mod clocktear;
 pub mod mixer;
 pub mod fxa;
 pub mod fxb;
+pub mod fxrate;
 pub mod param;
 pub mod srate;
 pub mod system;
@@ -57,6 +58,7 @@ pub fn gen(suite: &str, rng: &mut Rng, n: usize, thorough: bool, stats: &mut Sta
 		"mixpart" => mixer::gen(rng, n, thorough, stats, mixer::Mode::Partition),
 		"fxa" => fxa::gen(rng, n, thorough, stats),
 		"fxb" => fxb::gen(rng, n, thorough, stats),
+		"fxrate" => fxrate::gen(rng, n, thorough, stats),
 		"chan" => chan::gen(rng, n, thorough, stats),
 		"deliver" => deliver::gen(rng, n, thorough, stats),
 		"life" => life::gen(rng, n, thorough, stats),
@@ -90,6 +92,7 @@ pub fn run(suite: &str, ops: &[String]) -> Vec<String> {
 		"mixpart" => mixer::run(ops, mixer::Mode::Partition),
 		"fxa" => fxa::run(ops),
 		"fxb" => fxb::run(ops),
+		"fxrate" => fxrate::run(ops),
 		"chan" => chan::run(ops),
 		"deliver" => deliver::run(ops),
 		"life" => life::run(ops),
